@@ -366,6 +366,14 @@ int __wrap_fclose(FILE *f) {
 	return __real_fclose(f);
 }
 
+// fread on a simulated stream is a seam crossing of its own: glibc answers from its buffer or from its EOF flag without
+// calling the cookie, so a loop that keeps asking a FILE at end of input would otherwise cross no seam at all
+size_t __real_fread(void *, size_t, size_t, FILE *);
+size_t __wrap_fread(void *buf, size_t sz, size_t n, FILE *f) {
+	if (t_inlib > 0 && g_sim.streams.count(f)) sim_seam("fread", sz * n, 0, true);
+	return __real_fread(buf, sz, n, f);
+}
+
 int __wrap_fileno(FILE *f) {
 	auto it = g_sim.streams.find(f);
 	if (it != g_sim.streams.end()) return it->second;
